@@ -62,9 +62,9 @@ func genC11(rt *rapid.T) core.Scenario {
 		sc.L = rapid.IntRange(0, 12).Draw(rt, "Lsmall")
 	}
 	sc.From = rapid.IntRange(0, sc.L).Draw(rt, "from")
-	faults := []string{"none", "cb-error", "cancel-before", "cancel-in-cb", "cancel-and-error-in-cb", "read-fail"}
+	faults := []string{"none", "cb-error", "cancel-before", "cancel-in-cb", "cancel-and-error-in-cb", "read-fail", "read-fail-eof"}
 	if sc.Store.Kind == "mem" && !sc.Store.HideStreamer {
-		faults = append(faults, "stream-row-fail")
+		faults = append(faults, "stream-row-fail", "stream-row-fail-eof")
 	}
 	if sc.Store.Kind == "sqlite" {
 		faults = append(faults, "sql-next", "sql-next", "sql-query", "sql-close")
@@ -133,10 +133,12 @@ func (sc *C11Scenario) Execute(t *testing.T) *core.Outcome {
 		switch sc.Fault {
 		case "cancel-before":
 			cancel()
-		case "read-fail":
+		case "read-fail", "read-fail-eof":
 			fc.plan.FailRead = []int{fc.n["read"] + sc.K%4}
-		case "stream-row-fail":
+			fc.ReadFailsWithEOF = sc.Fault == "read-fail-eof"
+		case "stream-row-fail", "stream-row-fail-eof":
 			fc.plan.FailStreamRow = []int{fc.rows + sc.K}
+			fc.ReadFailsWithEOF = sc.Fault == "stream-row-fail-eof"
 		case "sql-next":
 			sf.FailNextAtRow = sf.rows + sc.K
 		case "sql-query":
@@ -346,13 +348,20 @@ func c11Grid(tier string, yield func(core.Scenario)) string {
 		}
 	}
 	// long logs: beyond any "reasonable" internal cap or buffer size (10 000, 2^13, 2^14 ...)
-	long := []StoreCfg{{Kind: "sqlite"}}
+	long := []StoreCfg{{Kind: "sqlite"}, {Kind: "mem"}}
 	if tier == "thorough" {
-		long = append(long, StoreCfg{Kind: "sqlite", StreamBatch: 7}, StoreCfg{Kind: "sqlite", HideStreamer: true}, StoreCfg{Kind: "mem"}, StoreCfg{Kind: "mem", HideStreamer: true})
+		long = append(long, StoreCfg{Kind: "sqlite", StreamBatch: 7}, StoreCfg{Kind: "sqlite", HideStreamer: true}, StoreCfg{Kind: "mem", HideStreamer: true})
 	}
 	for i, st := range long {
 		n++
 		yield(&C11Scenario{Store: st, L: 16500 + i, From: 3 * i, Fault: "none"})
+		// and lengths right at the powers of two and "round" numbers where internal chunks and caps tend to sit
+		for _, l := range []int{1023, 1024, 1025, 2049, 4096, 10001} {
+			if tier == "thorough" || st.Kind == "mem" {
+				n++
+				yield(&C11Scenario{Store: st, L: l, From: l % 3, Fault: "none"})
+			}
+		}
 	}
 	return fmt.Sprintf("the full grid of %d cases (the last few: fault-free replays of logs of 16 500 events): 9 store configurations x replay batch sizes {unset,1,2,3} (paged stores) x log length 0..%d x every start offset x every applicable fault kind x every fault position 0..remaining+1", n, maxL)
 }
